@@ -139,7 +139,9 @@ func (b *trzszBuffer) readLine(mayHasJunk bool, timeout <-chan time.Time) ([]byt
 
 func (b *trzszBuffer) readBinary(size int, timeout <-chan time.Time) ([]byte, error) {
 	b.readBuf.Reset()
-	if b.readBuf.Cap() < size {
+	// the size comes from the peer: only reserve what a real chunk can need, a larger buffer grows as data arrives
+	const maxReserveSize = 32 * 1024 * 1024
+	if b.readBuf.Cap() < size && size <= maxReserveSize {
 		b.readBuf.Grow(size)
 	}
 	b.timeout = timeout
